@@ -1,6 +1,95 @@
-From Coq Require Import List NArith.
-From SK Require Import lib.LGraph model.C11_Model proof.C11_Dedup.
+From Coq Require Import List NArith Arith.
+From SK Require Import lib.LGraph lib.Mono model.C11_Model proof.C11_Aut proof.C11_WL proof.C11_Dedup proof.C11_Main.
 Import ListNotations.
+
+(** Vocabulary (definitions in proof/C11_Aut.v, written out here for the reader):
+      simple_graph g            := NoDup (node_ids g) /\ no edge joins a node to itself        (implied by LGraph.wf)
+      is_automorphism fn fe g s := s maps node_ids g into node_ids g, injectively, preserves the node label
+                                   [lab_of fn g] and the adjacency with its edge label [adj_of fe g] (absent stays absent)
+      aut_pairs g s             := rev (map (fun u => (u, s u)) (node_ids g))
+      same_orbit fn fe g u v    := exists m, In m (auts fn fe g) /\ In (u, v) m
+    [auts fn fe g] is the model of networkx VF2 [GraphMatcher(g, g).isomorphisms_iter()]: the verified enumerator
+    lib/Mono.v [monos] (induced, g into g).  The code uses only the number of enumerated maps and the set of
+    their (node, image) pairs; the correspondence compares both on every case, which monitors the premise
+    "VF2 lists every label-preserving self-isomorphism exactly once". *)
+
+(** Clause 1 (count).  The enumeration is a duplicate-free list of exactly the label-preserving automorphisms, and
+    the reported number is its length — for a graph with at most one component; otherwise the product of the
+    per-component numbers (component swaps are not counted, as documented in the code). *)
+Theorem C11_aut_count :
+  forall (fn : nlab -> N) (fe : elab -> N) (g : graph), simple_graph g ->
+    NoDup (auts fn fe g) /\
+    (forall m, In m (auts fn fe g) <-> exists s, is_automorphism fn fe g s /\ m = aut_pairs g s) /\
+    a_count (analyze fn fe g) =
+      (if (length (components g) <=? 1)%nat then N.of_nat (length (auts fn fe g))
+       else fold_left N.mul (map (fun c => N.of_nat (length (auts fn fe (induced_sub g c)))) (components g)) 1%N) /\
+    (forall c, simple_graph (induced_sub g c)).
+Proof. exact aut_count_all. Qed.
+Print Assumptions C11_aut_count.
+
+(** The listed maps form a group: identity, composition, inverse (this is what makes "exchangeable" an
+    equivalence relation). *)
+Theorem C11_aut_group :
+  forall (fn : nlab -> N) (fe : elab -> N) (g : graph), simple_graph g ->
+    is_automorphism fn fe g (fun u => u) /\
+    (forall s t, is_automorphism fn fe g s -> is_automorphism fn fe g t -> is_automorphism fn fe g (fun u => s (t u))) /\
+    (forall s, is_automorphism fn fe g s ->
+       exists t, is_automorphism fn fe g t /\ forall u, In u (node_ids g) -> t (s u) = u /\ s (t u) = u).
+Proof. exact aut_group. Qed.
+Print Assumptions C11_aut_group.
+
+(** VF2 as an explicit premise.  [analyze_component_with ns E] is Automorphism._analyze_component with the enumeration
+    [gm.isomorphisms_iter()] abstracted to an arbitrary list E; the model's [analyze_component fn fe g] is this function
+    at [auts fn fe g].  Contract of VF2: E lists every label-preserving automorphism exactly once.  Under the contract
+    the analysis (count and orbit list) is the one the theorems above and below talk about. *)
+Theorem C11_vf2_contract :
+  forall (fn : nlab -> N) (fe : elab -> N) (g : graph) (E : list mapping), simple_graph g ->
+    NoDup E ->
+    (forall m, In m E <-> exists s, is_automorphism fn fe g s /\ m = aut_pairs g s) ->
+    analyze_component_with (node_ids g) E = analyze_component fn fe g /\
+    length E = length (auts fn fe g).
+Proof. exact vf2_contract_suffices. Qed.
+Print Assumptions C11_vf2_contract.
+
+(** Clause 2 (orbits).  [exact_orbits fn fe g O] (proof/C11_Aut.v) says: every node lies in some member of O; members
+    contain only nodes; two members sharing a node are equal; O has no repeated member; and for u in a member o,
+    v is in o IFF some listed automorphism maps u to v.  Written out for the connected case; for a disconnected
+    graph the reported list consists of the members of the per-component analyses, each of which is exact for its
+    component (induced subgraph). *)
+Theorem C11_orbits_exact :
+  forall (fn : nlab -> N) (fe : elab -> N) (g : graph), simple_graph g ->
+    ((length (components g) <= 1)%nat ->
+       let O := a_orbits (analyze fn fe g) in
+       (forall u, In u (node_ids g) -> exists o, In o O /\ In u o) /\
+       (forall o u, In o O -> In u o -> In u (node_ids g)) /\
+       (forall o1 o2 u, In o1 O -> In o2 O -> In u o1 -> In u o2 -> o1 = o2) /\
+       NoDup O /\
+       (forall o u v, In o O -> In u o -> (In v o <-> same_orbit fn fe g u v))) /\
+    ((1 < length (components g))%nat ->
+       forall o, In o (a_orbits (analyze fn fe g)) <->
+                 exists c, In c (components g) /\ In o (fst (analyze_component fn fe (induced_sub g c)))) /\
+    (forall c, exact_orbits fn fe (induced_sub g c) (fst (analyze_component fn fe (induced_sub g c)))) /\
+    NoDup (a_orbits (analyze fn fe g)) /\
+    (forall u, In u (node_ids g) -> exists o, In o (a_orbits (analyze fn fe g)) /\ In u o).
+Proof. exact orbits_exact_all. Qed.
+Print Assumptions C11_orbits_exact.
+
+(** Clause 2, second sentence (the fast estimate).  After any number [k] of WL-1 sweeps (AutoEst max_iter), every
+    automorphism that preserves the labels the estimate was given keeps the colour of every node — component swaps
+    included —, so a colour class (estimated orbit) never contains one node of a true orbit without the other. *)
+Theorem C11_wl_never_splits :
+  forall (fn : nlab -> N) (fe : elab -> N) (g : graph) (k : nat), wf g ->
+    (forall s, is_automorphism fn fe g s ->
+       forall u, In u (node_ids g) -> col (wl fn fe g k) (s u) = col (wl fn fe g k) u) /\
+    (forall m u v, In m (auts fn fe g) -> In (u, v) m -> col (wl fn fe g k) v = col (wl fn fe g k) u) /\
+    (forall o u v, In o (wl_orbits (wl fn fe g k)) -> In u o -> same_orbit fn fe g u v -> In v o).
+Proof. exact wl_never_splits_all. Qed.
+Print Assumptions C11_wl_never_splits.
+
+(** The premise [wf g] is decided by the model function [wfb], which the correspondence evaluates on every graph. *)
+Theorem C11_wfb_sound : forall g : graph, wfb g = true -> wf g.
+Proof. exact wfb_wf. Qed.
+Print Assumptions C11_wfb_sound.
 
 (** Clause 3: de-duplication returns a sub-list of its input in the original order —
     deduplicate_matches_with_anchor (every orbit / anchor / host-orbit configuration; [None] = ValueError),
@@ -12,3 +101,29 @@ Theorem C11_dedup_sublist :
     (forall rc, subseq (prune key rc xs) xs).
 Proof. exact dedup_sublist_all. Qed.
 Print Assumptions C11_dedup_sublist.
+
+(** Clause 4 (pruning), first half: every raw match is represented by a kept match — the same list element, the
+    same set of (pattern node, host node) items, or its items are those of the kept match with the pattern node
+    moved by an automorphism [s] of the rule centre ([app_map s p] = s[p]); i.e. m = m' o s^-1. *)
+Theorem C11_prune_complete :
+  forall (X : Type) (key : X -> mapping) (rc : graph) (raw : list X) (x : X),
+    In x raw ->
+    exists y, In y (prune key rc raw) /\
+      (y = x \/ (forall ph, In ph (key x) <-> In ph (key y)) \/
+       exists s, In s (rule_auts rc) /\
+         forall p h, In (p, h) (key x) <-> exists p', In (p', h) (key y) /\ p = app_map s p').
+Proof. exact prune_complete_all. Qed.
+Print Assumptions C11_prune_complete.
+
+(** Clause 4, second half: hence every result function [res] (gluing the rule at a match, up to the identification
+    used for "distinct") that depends only on the item set of a match and is invariant under the rule automorphisms
+    takes exactly the same set of values on the kept matches as on all raw matches.  The invariance of gluing is
+    the named premise (it is C05's gluing equivariance; here it is exercised end-to-end by the oracle on every
+    prune case: set of standardised reactions and of ITS hashes with pruning on = with every raw match glued). *)
+Theorem C11_prune_same_results :
+  forall (X R : Type) (key : X -> mapping) (rc : graph) (raw : list X) (res : mapping -> R),
+    (forall m m', (forall ph, In ph m <-> In ph m') -> res m = res m') ->
+    (forall s x, In s (rule_auts rc) -> In x raw -> res (act s (key x)) = res (key x)) ->
+    forall r, In r (map (fun x => res (key x)) raw) <-> In r (map (fun x => res (key x)) (prune key rc raw)).
+Proof. exact prune_same_results. Qed.
+Print Assumptions C11_prune_same_results.
